@@ -49,7 +49,8 @@ func init() {
 	log.SetGlobalLogger(zap.NewNop().Sugar())
 }
 
-// Step kinds: create, complete, setmd, delmd, delete, read, pressure, flush.
+// Step kinds: create, complete, setmd, delmd, delete, read, hold (open a handle and read the
+// first half), resume (read the rest through the held handle), pressure, flush.
 type Step struct {
 	Kind string `json:"kind"`
 	Key  int    `json:"key,omitempty"`
@@ -66,9 +67,9 @@ var keys = []string{"aa11", "bb22", "cc33"}
 
 func gen(t *rapid.T) Case {
 	c := Case{MemBlobs: rapid.IntRange(2, 3).Draw(t, "mem")}
-	kinds := []string{"create", "create", "complete", "complete", "setmd", "setmd", "setmd", "delmd", "delete", "read", "pressure", "pressure",
-		"flush", "flush", "flush", "flush", "flush", "flush", "flush", "flush"}
-	n := rapid.IntRange(4, 40).Draw(t, "n")
+	kinds := []string{"create", "create", "complete", "complete", "setmd", "setmd", "setmd", "delmd", "delete", "read", "hold", "hold", "resume", "resume", "pressure", "pressure",
+		"flush", "flush", "flush", "flush", "flush", "flush", "flush", "flush", "flushall"}
+	n := rapid.IntRange(4, 48).Draw(t, "n")
 	for i := 0; i < n; i++ {
 		s := Step{Kind: rapid.SampledFrom(kinds).Draw(t, "kind"), Key: rapid.IntRange(0, len(keys)-1).Draw(t, "key")}
 		switch s.Kind {
@@ -175,6 +176,18 @@ func run(c Case) pbt.Verdict {
 	}()
 
 	model := map[int]*mblob{}
+	gen := map[int]int{} // generation of each key (bumped by create and delete)
+	type heldHandle struct {
+		f    *tiered.File
+		gen  int
+		read int
+	}
+	held := map[int]*heldHandle{}
+	defer func() {
+		for _, hh := range held {
+			hh.f.Close()
+		}
+	}()
 	var hist []string
 	note := func(f string, a ...interface{}) { hist = append(hist, fmt.Sprintf(f, a...)) }
 	history := func() string {
@@ -249,6 +262,12 @@ func run(c Case) pbt.Verdict {
 		b := model[s.Key]
 		duringFlushOfSameKey := fc.running && fc.cur.key == name
 		switch s.Kind {
+		case "flushall":
+			if !fc.quiesce() {
+				return pbt.Verdict{Discard: true, Classes: []string{"flusher-stuck"}}
+			}
+			note("%d: flusher run to quiescence", si)
+			continue
 		case "flush":
 			r := fc.step()
 			note("%d: flusher -> %s", si, r)
@@ -276,6 +295,7 @@ func run(c Case) pbt.Verdict {
 			}
 			f.Close()
 			model[s.Key] = &mblob{data: data}
+			gen[s.Key]++
 			note("%d: create %s (%d bytes of %02x)", si, name, s.Size, s.Val)
 		case "complete":
 			err := st.MarkComplete(name)
@@ -324,12 +344,53 @@ func run(c Case) pbt.Verdict {
 				return pbt.Fail("Delete(%s) fails at step %d: %v\n  history:%s", name, si, err, history())
 			}
 			delete(model, s.Key)
+			gen[s.Key]++
 			note("%d: delete %s", si, name)
 			if duringFlushOfSameKey {
 				classes["delete-during-flush-of-same-key"] = true
 			}
 		case "read":
 			// covered by the check below
+		case "hold":
+			if b == nil || !b.complete || held[s.Key] != nil {
+				continue
+			}
+			f, err := st.Open(name)
+			if err != nil {
+				return pbt.Fail("completed blob %s cannot be opened at step %d: %v\n  history:%s", name, si, err, history())
+			}
+			half := len(b.data) / 2
+			buf := make([]byte, half)
+			if _, err := io.ReadFull(f, buf); err != nil {
+				f.Close()
+				return pbt.Fail("reading the first %d bytes of completed blob %s fails at step %d: %v\n  history:%s", half, name, si, err, history())
+			}
+			if !bytes.Equal(buf, b.data[:half]) {
+				f.Close()
+				return pbt.Fail("first half of completed blob %s reads %x, want %x (step %d)\n  history:%s", name, buf, b.data[:half], si, history())
+			}
+			held[s.Key] = &heldHandle{f: f, gen: gen[s.Key], read: half}
+			note("%d: hold %s (read %d of %d bytes)", si, name, half, len(b.data))
+		case "resume":
+			hh := held[s.Key]
+			if hh == nil {
+				continue
+			}
+			delete(held, s.Key)
+			if b == nil || hh.gen != gen[s.Key] {
+				hh.f.Close() // the blob was deleted (and maybe re-created) since: the handle is not judged
+				continue
+			}
+			rest, err := io.ReadAll(hh.f)
+			hh.f.Close()
+			if err != nil {
+				return pbt.Fail("a handle opened on completed blob %s cannot be read on after %d bytes (step %d): %v\n  history:%s", name, hh.read, si, err, history())
+			}
+			if !bytes.Equal(rest, b.data[hh.read:]) {
+				return pbt.Fail("a handle opened on completed blob %s continues after %d bytes with %x, want %x (step %d)\n  history:%s", name, hh.read, rest, b.data[hh.read:], si, history())
+			}
+			classes["held-handle-read-on"] = true
+			note("%d: resume %s (rest %d bytes ok)", si, name, len(rest))
 		case "pressure":
 			filler++
 			fn := fmt.Sprintf("ff%02d", filler)
@@ -394,7 +455,7 @@ func run(c Case) pbt.Verdict {
 func TestProp(t *testing.T) {
 	pbt.Main(t, pbt.Spec{
 		ID: "C09",
-		Rule: "rapid generates histories over 3 keys on a tiered store (disk capacity 1 MiB so disk never evicts; memory capacity 2-3 blobs): client ops {create+write, complete, set/delete metadata, delete, read, memory pressure (a filler as large as the memory tier is created and deleted)} interleaved with 'advance the flusher to its next scheduling point' steps; background workers are stopped and the harness runs each flush on a goroutine that parks at 12 lock-free scheduling points (verif hook). Model: key -> absent | incomplete | complete{bytes, metadata}; after every client op and again after quiescence + memory flood: completed blobs are present, read back exactly, and metadata equals the last successful update; absent keys are invisible and can be created. non-trivial = a client op on key k executes while the flusher is parked inside a flush of k; distinct by case hash",
+		Rule: "rapid generates histories over 3 keys on a tiered store (disk capacity 1 MiB so disk never evicts; memory capacity 2-3 blobs): client ops {create+write, complete, set/delete metadata, delete, read, hold (open a handle and read half) / resume (read the rest through the held handle, possibly after the blob left the memory tier), memory pressure (a filler as large as the memory tier is created and deleted)} interleaved with 'advance the flusher to its next scheduling point' steps (and an occasional 'run the flusher to quiescence'); background workers are stopped and the harness runs each flush on a goroutine that parks at 12 lock-free scheduling points (verif hook). Model: key -> absent | incomplete | complete{bytes, metadata}; after every client op and again after quiescence + memory flood: completed blobs are present, read back exactly, and metadata equals the last successful update; absent keys are invisible and can be created. non-trivial = a client op on key k executes while the flusher is parked inside a flush of k; distinct by case hash",
 		Assumptions: []string{
 			"interleavings are owned at the granularity of the hook's scheduling points (all outside critical sections); one flush worker",
 			"disk never evicts in this configuration, so any disappearance of a completed blob is a loss",
